@@ -6,6 +6,12 @@ instance of the definitions of Model/Models.lean that Driver/C05.lean runs on `F
 Reading guide: `alts` = keys of the `util` dict (any list of integer labels), `V`, `av` = the
 utilities and availability values by label (`av = fun _ => 1` is `availability=None`),
 an alternative is available iff `av i ≠ 0`; a `none` log-probability is `log(0) = −∞`.
+
+Round 3 (section "the calls"): Model/ModelsBuild.lean is the level of the Python calls — dictionaries as
+insertion-ordered lists of (label, value), `availability=None`, look-ups by key, the audit of the key
+sets, the `_bioLogLogitFullChoiceSet` branch, `logmev_endogenous_sampling`, the `Beta` test of
+`ordered_likelihood`; the theorems tie that level to the semantic level above (Driver/C05.lean op `call`
+runs the same definitions on `Float`).
 -/
 import Model.Models
 import Proofs.Models
@@ -14,6 +20,9 @@ import Proofs.ModelsCnl
 import Proofs.ModelsOrdered
 import Proofs.ModelsDrop
 import Proofs.ModelsOrder
+import Model.ModelsBuild
+import Proofs.ModelsBuild
+import Proofs.ModelsES
 
 open Models
 
@@ -252,6 +261,233 @@ theorem cnl_order_irrelevant (alts : List Int) (nests nests' : List (CNest ℝ))
   unfold cnlP cnlMuP logCnlP logCnlMuP
   rw [cnlLogG_perm hp, cnlMuLogG_perm hp]
   exact ⟨rfl, rfl, rfl, rfl⟩
+
+/-! ## round 3 — the calls: dictionaries, `availability=None`, endogenous sampling, one-alternative nests -/
+
+/-- `models.loglogit` / `models.logit` on the dictionaries the user wrote: the keys of `util` are
+distinct labels in any order, the availability dictionary has (at least) the same keys **in any
+insertion order**; or `availability=None`.  The value is the semantic kernel / probability of the
+theorems above on the functions the dictionaries denote: the availability of an alternative is the one
+stored under ITS KEY, and `None` is the all-ones pattern.  (A numeric 0/1 is an availability like any
+other: there is no branch that drops the dictionary.) -/
+theorem logit_call (util a : List (Int × ℝ)) (hnd : (util.map (·.1)).Nodup)
+    (hkeys : ∀ p ∈ util, ∃ x, dictGet a p.1 = some x) (c : Int) (hc : c ∈ util.map (·.1)) :
+    loglogitCall util (some a) c = .ok (logLogit (util.map (·.1)) (dictFun util) (dictFun a) c) ∧
+    logitCall util (some a) c = .ok (logitP (util.map (·.1)) (dictFun util) (dictFun a) c) := by
+  have h1 : loglogitCall util (some a) c =
+      .ok (logLogit (util.map (·.1)) (dictFun util) (dictFun a) c) := by
+    rw [loglogitCall_some, bioLogLogit_ok _ _ _ _ (kernelTriples_some a util hkeys)]
+    exact kernelValue_map util (dictFun a) hnd c hc
+  refine ⟨h1, ?_⟩
+  unfold logitCall logitP
+  rw [h1]
+  rfl
+
+/-- `availability=None` (the `_bioLogLogitFullChoiceSet` branch of `models.logit` / `loglogit`): the
+all-ones availability pattern -/
+theorem logit_call_none (util : List (Int × ℝ)) (hnd : (util.map (·.1)).Nodup) (c : Int)
+    (hc : c ∈ util.map (·.1)) :
+    loglogitCall util none c = .ok (logLogit (util.map (·.1)) (dictFun util) (fun _ => 1) c) ∧
+    logitCall util none c = .ok (logitP (util.map (·.1)) (dictFun util) (fun _ => 1) c) := by
+  have h2 : loglogitCall util none c =
+      .ok (logLogit (util.map (·.1)) (dictFun util) (fun _ => 1) c) := by
+    rw [loglogitCall_none, bioLogLogit_ok _ _ _ _ (kernelTriples_none util)]
+    have := kernelValue_map util (fun _ => (1 : ℝ)) hnd c hc
+    simpa using this
+  refine ⟨h2, ?_⟩
+  unfold logitCall logitP
+  rw [h2]
+  rfl
+
+example : ([(7, (0.5 : ℝ)), (3, 1), (12, -2)].map (·.1)).Nodup ∧
+    (∀ p ∈ [(7, (0.5 : ℝ)), (3, 1), (12, -2)], ∃ x, dictGet [(12, (1 : ℝ)), (7, 0), (3, 1)] p.1 = some x) := by
+  refine ⟨by decide, ?_⟩
+  intro p hp
+  simp only [List.mem_cons, List.not_mem_nil, or_false] at hp
+  rcases hp with rfl | rfl | rfl <;> simp [dictGet, List.lookup]
+
+/-- the insertion order of the availability dictionary is irrelevant for every kernel-based call
+(logit, MEV, MEV with endogenous sampling), whatever `NumOps` (reals and the driver's `Float`) -/
+theorem availability_order_irrelevant {α : Type} [NumOps α] (util logG corr a a' : List (Int × α))
+    (hp : a.Perm a') (hnd : (a.map (·.1)).Nodup) (c : Int) :
+    loglogitCall util (some a) c = loglogitCall util (some a') c ∧
+    logmevCall util logG (some a) c = logmevCall util logG (some a') c ∧
+    logmevESCall util logG corr (some a) c = logmevESCall util logG corr (some a') c := by
+  have h : dictGet a = dictGet a' := funext (lookup_perm hp hnd)
+  unfold loglogitCall logmevCall logmevESCall bioLogLogit kernelTriples
+  refine ⟨?_, ?_, ?_⟩ <;> simp only [h]
+
+example : ([(12, (1 : ℝ)), (7, 0), (3, 1)]).Perm [(7, 0), (3, 1), (12, 1)] ∧
+    ([(12, (1 : ℝ)), (7, 0), (3, 1)].map (·.1)).Nodup := by
+  refine ⟨?_, by decide⟩
+  exact (List.perm_cons_append_cons _ (l₁ := [(7, (0 : ℝ)), (3, 1)]) (l₂ := []) (List.Perm.refl _)).trans (by simp)
+
+/-- an alternative of `util` without an entry in the availability dictionary: `KeyError`, never a
+silent default -/
+theorem availability_key_missing {α : Type} [NumOps α] (util a : List (Int × α))
+    (h : ∃ p ∈ util, dictGet a p.1 = none) (c : Int) :
+    loglogitCall util (some a) c = .error "KeyError" := by
+  rw [loglogitCall_some, bioLogLogit_error _ _ _ _ (kernelTriples_missing a util h)]
+
+/-- evaluation of `models.loglogit(util, av, c)` (`get_value_c`, `BIOGEME`): the audit refuses
+dictionaries whose key sets differ (`BiogemeError`); when they agree — in whatever insertion order —
+the value is the semantic kernel; the `KeyError` of `get_signature` is unreachable -/
+theorem logit_evaluated (util a : List (Int × ℝ)) (hnd : (util.map (·.1)).Nodup) (c : Int)
+    (hc : c ∈ util.map (·.1)) :
+    (keysAgree util a = true →
+      loglogitEval util (some a) c = .ok (logLogit (util.map (·.1)) (dictFun util) (dictFun a) c)) ∧
+    (keysAgree util a = false → loglogitEval util (some a) c = .error "BiogemeError") ∧
+    loglogitEval util none c = .ok (logLogit (util.map (·.1)) (dictFun util) (fun _ => 1) c) :=
+  ⟨fun h => by
+      rw [loglogitEval_agree util a c h]
+      exact (logit_call util a hnd (keysAgree_keys util a h) c hc).1,
+   loglogitEval_disagree util a c,
+   by
+      rw [loglogitEval_none]
+      exact (logit_call_none util hnd c hc).1⟩
+
+/-- `models.logmev` / `logmev_endogenous_sampling` on the dictionaries the user wrote (`log_gi` and the
+corrections looked up by key, availability dictionary in any insertion order): the value is the
+semantic `logMev` / `logMevES` of the theorems on the functions the dictionaries denote -/
+theorem mev_call (util logG corr a : List (Int × ℝ)) (hnd : (util.map (·.1)).Nodup)
+    (hg : ∀ p ∈ util, ∃ g, dictGet logG p.1 = some g) (hw : ∀ p ∈ util, ∃ w, dictGet corr p.1 = some w)
+    (hkeys : ∀ p ∈ util, ∃ x, dictGet a p.1 = some x) (c : Int) (hc : c ∈ util.map (·.1)) :
+    logmevCall util logG (some a) c =
+      .ok (logMev (util.map (·.1)) (dictFun util) (dictFun logG) (dictFun a) c) ∧
+    logmevESCall util logG corr (some a) c =
+      .ok (logMevES (util.map (·.1)) (dictFun util) (dictFun logG) (dictFun corr) (dictFun a) c) := by
+  constructor
+  · have hh : hDict util logG = .ok (util.map fun p => (p.1, p.2 + dictFun logG p.1)) := by
+      unfold hDict
+      apply mapKeys_ok (fun i v => (dictGet logG i).map fun g => v + g) (fun i v => v + dictFun logG i)
+      intro p hp
+      obtain ⟨g, hgp⟩ := hg p hp
+      simp [dictFun, hgp]
+    have hk : (util.map fun p => (p.1, p.2 + dictFun logG p.1)).map (·.1) = util.map (·.1) :=
+      keys_mapped util (fun i v => v + dictFun logG i)
+    rw [logmevCall_ok _ _ _ _ _ hh]
+    have h1 := (logit_call (util.map fun p => (p.1, p.2 + dictFun logG p.1)) a
+      (by rw [hk]; exact hnd)
+      (fun q hq => by
+        obtain ⟨p, hp, rfl⟩ := List.mem_map.1 hq
+        exact hkeys p hp) c (by rw [hk]; exact hc)).1
+    rw [h1, hk]
+    congr 1
+    unfold logMev
+    apply logLogit_congr_on _ _ _ _ _ hc
+    intro i hi
+    obtain ⟨p, hp, rfl⟩ := List.mem_map.1 hi
+    rw [dictFun_mapped util (fun i v => v + dictFun logG i) hnd p hp, dictFun_self util hnd p hp]
+  · have hh : hDictES util logG corr =
+        .ok (util.map fun p => (p.1, p.2 + dictFun logG p.1 + dictFun corr p.1)) := by
+      unfold hDictES
+      apply mapKeys_ok
+        (fun i v => (dictGet logG i).bind fun g => (dictGet corr i).map fun w => v + g + w)
+        (fun i v => v + dictFun logG i + dictFun corr i)
+      intro p hp
+      obtain ⟨g, hgp⟩ := hg p hp
+      obtain ⟨w, hwp⟩ := hw p hp
+      simp [dictFun, hgp, hwp]
+    have hk : (util.map fun p => (p.1, p.2 + dictFun logG p.1 + dictFun corr p.1)).map (·.1) =
+        util.map (·.1) := keys_mapped util (fun i v => v + dictFun logG i + dictFun corr i)
+    rw [logmevESCall_ok _ _ _ _ _ _ hh, ← loglogitCall_some]
+    have h1 := (logit_call (util.map fun p => (p.1, p.2 + dictFun logG p.1 + dictFun corr p.1)) a
+      (by rw [hk]; exact hnd)
+      (fun q hq => by
+        obtain ⟨p, hp, rfl⟩ := List.mem_map.1 hq
+        exact hkeys p hp) c (by rw [hk]; exact hc)).1
+    rw [h1, hk]
+    congr 1
+    unfold logMevES
+    apply logLogit_congr_on _ _ _ _ _ hc
+    intro i hi
+    obtain ⟨p, hp, rfl⟩ := List.mem_map.1 hi
+    rw [dictFun_mapped util (fun i v => v + dictFun logG i + dictFun corr i) hnd p hp,
+      dictFun_self util hnd p hp]
+
+/-- MEV with the correction for endogenous sampling (`logmev_endogenous_sampling`,
+`mev_endogenous_sampling`), arbitrary `ln G_i` and arbitrary correction terms: a distribution over the
+available alternatives, and the log version is the logarithm of the probability version -/
+theorem mev_es_distribution (alts : List Int) (V logG corr av : Int → ℝ) :
+    (∀ c ∈ alts, 0 ≤ mevESP alts V logG corr av c ∧ mevESP alts V logG corr av c ≤ 1) ∧
+    ((∃ i ∈ alts, av i ≠ 0) → (alts.map (mevESP alts V logG corr av)).sum = 1) ∧
+    (∀ c, av c = 0 → mevESP alts V logG corr av c = 0 ∧ logMevES alts V logG corr av c = none) ∧
+    (∀ c, av c ≠ 0 → ∃ l, logMevES alts V logG corr av c = some l ∧
+        Real.exp l = mevESP alts V logG corr av c ∧ Real.log (mevESP alts V logG corr av c) = l) :=
+  ⟨fun c hc => logit_range alts _ av c hc,
+   fun h => logit_sum_one alts _ av h,
+   fun c h => logit_unavailable_zero alts _ av c h,
+   fun c h => log_logitP alts _ av c ((avail_iff av c).2 h)⟩
+
+/-- without correction, or with the same correction for every alternative, it is the MEV model -/
+theorem mev_es_neutral_correction (alts : List Int) (V logG av : Int → ℝ) (k : ℝ) (c : Int)
+    (hc : c ∈ alts) :
+    logMevES alts V logG (fun _ => 0) av c = logMev alts V logG av c ∧
+    mevESP alts V logG (fun _ => k) av c = mevP alts V logG av c := by
+  refine ⟨logMevES_zero alts V logG av c, ?_⟩
+  rw [mevESP_eq_logitP, mevP_eq_logitP]
+  exact logitP_shift_on alts _ _ av k c hc (fun _ _ _ => rfl)
+
+/-- the correction reweights the MEV distribution: `P^ES_c · Σ_j P_j e^{ω_j} = P_c e^{ω_c}`
+(this is the relation the harness applies to the real outputs of `mev_endogenous_sampling` and `mev`) -/
+theorem mev_es_reweight (alts : List Int) (V logG corr av : Int → ℝ) (c : Int) (hc : c ∈ alts) :
+    mevESP alts V logG corr av c *
+        (alts.map fun j => mevP alts V logG av j * Real.exp (corr j)).sum =
+      mevP alts V logG av c * Real.exp (corr c) :=
+  mevES_reweight alts V logG corr av c hc
+
+/-- a nest with exactly one (available) alternative is the same as leaving the alternative alone:
+`ln G_i = 0` without scale, `log mu + (mu − 1) V_i` with the scale `mu`, whatever its own `mu_m ≠ 0` -/
+theorem singleton_nest_is_alone (nests : List (Nest ℝ)) (mu : ℝ) (V av : Int → ℝ) (i : Int)
+    (m : Nest ℝ) (h : findNest nests i = some m) (hm : m.alts = [i]) (hav : av i ≠ 0)
+    (hmu : m.mu ≠ 0) :
+    nestedLogG nests V av i = 0 ∧
+    nestedMuLogG nests mu V av i = Real.log mu + (mu - 1) * V i ∧
+    nestedLogG nests V av i = nestedLogG [] V av i ∧
+    nestedMuLogG nests mu V av i = nestedMuLogG [] mu V av i := by
+  have hav' := (avail_iff av i).2 hav
+  have h1 := nestedLogG_singleton nests V av i m h hm hav' hmu
+  have h2 := nestedMuLogG_singleton nests mu V av i m h hm hav' hmu
+  refine ⟨h1, h2, ?_, ?_⟩
+  · rw [h1, nestedLogG_none [] V av i rfl]
+  · rw [h2, nestedMuLogG_none [] mu V av i rfl]
+
+example : findNest [(⟨1.5, [7, 12]⟩ : Nest ℝ), ⟨2.5, [3]⟩] 3 = some ⟨2.5, [3]⟩ := by
+  simp [findNest]
+
+/-- a nest object that passed its constructor (no member outside the choice set) always passes
+`check_union`, hence `check_validity`: the cross-nested functions never refuse at that step (the
+failure branch of `check_union` is unreachable through the public constructors) -/
+theorem validity_after_constructor {ν : Type} (altsOf : ν → List Int) (utilKeys : List Int)
+    (arg : NestsArg ν) (o : NestsObj ν) (h : resolve altsOf utilKeys arg = .ok o) :
+    checkValidity o.choiceSet (o.nests.map altsOf) = true := by
+  unfold checkValidity
+  cases arg with
+  | object cs specs =>
+    unfold resolve at h
+    cases hc : convertSpecs specs with
+    | error e => simp only [hc, bind, Except.bind] at h; cases h
+    | ok ns =>
+      simp only [hc, bind, Except.bind] at h
+      exact checkUnion_of_mkNests altsOf cs ns o h
+  | legacy specs =>
+    unfold resolve at h
+    cases hc : convertSpecs specs with
+    | error e => simp only [hc, bind, Except.bind] at h; cases h
+    | ok ns =>
+      simp only [hc, bind, Except.bind] at h
+      exact checkUnion_of_mkNests altsOf utilKeys ns o h
+
+/-- `ordered_likelihood` as called: a threshold that is not a `Beta` is refused, a `Beta` (free or
+fixed, with or without bounds) gives the dictionary of the theorems below exactly when there are at
+least two discrete values -/
+theorem ordered_call_defined (F : ℝ → ℝ) (x tau : ℝ) (diffOf : Int → ℝ) (labels : List Int) :
+    orderedCall false F x tau diffOf labels = .error "BiogemeError" ∧
+    orderedCall true F x tau diffOf labels = orderedLikelihood F x tau diffOf labels ∧
+    (2 ≤ labels.length → ∃ d, orderedCall true F x tau diffOf labels = .ok d) := by
+  refine ⟨rfl, rfl, fun h => ?_⟩
+  match labels, h with
+  | a :: b :: r, _ => exact ⟨_, orderedLikelihood_cons F x tau diffOf a (b :: r) (by simp)⟩
 
 /-! ## log versions -/
 
